@@ -12,6 +12,7 @@ import (
 	"strings"
 	"sync"
 	"time"
+	wdog "verifharness/wd"
 
 	"github.com/goatcms/goatcore/filesystem"
 	"github.com/goatcms/goatcore/filesystem/filespace/memfs"
@@ -235,7 +236,7 @@ func WaitTimeout(loop *fsloop.Loop, d time.Duration) bool {
 	select {
 	case <-done:
 		return true
-	case <-time.After(d):
+	case <-wdog.After(d):
 		return false
 	}
 }
@@ -302,7 +303,7 @@ func RunScript(c *RunConfig) (*ScriptResult, error) {
 	loop.Run("")
 	select {
 	case <-allParked:
-	case <-time.After(10 * time.Second):
+	case <-wdog.After(10 * time.Second):
 		res.Note = "consumers did not all reach the hook (hook missing or fewer consumers than configured)"
 	}
 	mu.Lock()
@@ -313,7 +314,7 @@ func RunScript(c *RunConfig) (*ScriptResult, error) {
 	select {
 	case <-announced:
 		res.Announced = true
-	case <-time.After(10 * time.Second):
+	case <-wdog.After(10 * time.Second):
 		res.Note += " close was not announced while the consumers were held"
 	}
 	close(release)
@@ -402,7 +403,7 @@ func WithForcedSchedule(nCons int, gate *GatedFS, body func()) (parked int, anno
 	go func() { body(); close(done) }()
 	select {
 	case <-allParked:
-	case <-time.After(2 * time.Second):
+	case <-wdog.After(2 * time.Second):
 	}
 	mu.Lock()
 	holding = false
@@ -411,12 +412,12 @@ func WithForcedSchedule(nCons int, gate *GatedFS, body func()) (parked int, anno
 	select {
 	case <-ann:
 		announced = true
-	case <-time.After(10 * time.Second):
+	case <-wdog.After(10 * time.Second):
 	}
 	relOnce.Do(func() { close(release) })
 	select {
 	case <-done:
-	case <-time.After(30 * time.Second):
+	case <-wdog.After(30 * time.Second):
 	}
 	return
 }
